@@ -33,6 +33,8 @@ EXPLANATION = (
     "C03-R2).  Declined: equality of real data to the digits printed; behaviour at field overflow; "
     "multi-line titles; whether every optional attribute present in an object is written."
 )
+TECHNIQUE += '; option-forwarding check on the format entry points; symbolic index-map evaluation of writer flattening against reader reshape; layout-independence lint of writer traversals'
+EXPLANATION += " Added: (R9) every option parameter of a format's load_one/load_many/dump_one/dump_many is read, and the many-frame routine forwards each option it shares with the one-frame routine; (R10) FCHK MO coefficients and coordinates and the QCSchema geometry, flattened by the writer expression and reshaped by the reader expression on symbolic arrays, come back entry by entry; (R11) no writer traverses an array in memory order (np.nditer without order, order='A'/'K', tobytes/tofile/view)."
 TRUSTED = ["CPython ast parser", "a dict comprehension {v: k for k, v in d.items()} inverts d iff the values are distinct"]
 
 RUN_TYPES = ["energy", "energy_force", "opt", "scan", "freq"]
